@@ -155,7 +155,8 @@ func c09Passwords(c *core.Ctx) {
 			config.ContinuousUser: {"job2": {"127.0.0.1", "10.1.1.1"}}},
 		"sched(job1 no allow list)": {},
 	}
-	users := []string{config.HealthUser, config.ScheduleUser, config.ContinuousUser, "alice", "root", ""}
+	users := []string{config.HealthUser, config.ScheduleUser, config.ContinuousUser, "alice", "root", "",
+		strings.ToLower(config.HealthUser), "Dtail-Health", strings.ToLower(config.ScheduleUser), config.HealthUser + " ", "dtail-continuous"}
 	passwords := []string{config.HealthUser, config.HealthUser + "x", strings.ToLower(config.HealthUser), "job1", "job2", "job", "wrong", "", "DTAIL-HEALTH "}
 	remotes := []string{"127.0.0.1", "10.9.9.9", "10.1.1.1", "192.168.1.1"}
 	for jn, set := range jobConfigs {
@@ -221,6 +222,8 @@ func c09Handshakes(c *core.Ctx) {
 		{"ordinary user with the health password", "alice", ssh.Password(config.HealthUser), false},
 		{"schedule user, no jobs configured", config.ScheduleUser, ssh.Password("job1"), false},
 		{"health user with a key", config.HealthUser, ssh.PublicKeys(Keys[0].Signer), false},
+		{"lower-case health user name with the health password", strings.ToLower(config.HealthUser), ssh.Password(config.HealthUser), false},
+		{"mixed-case health user name with the health password", "Dtail-Health", ssh.Password(config.HealthUser), false},
 	}
 	for _, h := range cases {
 		cl, err := dial(ts.Addr, h.user, h.auth)
@@ -311,7 +314,7 @@ func init() {
 		ID:    "C09",
 		Level: "exploration",
 		Rule: "A: authorized_keys files = all sequences of <=3 (quick) / <=4 (thorough) lines over 11 line kinds (rsa/ed25519/ecdsa keys, key with options, key with comment, comment, blank, whitespace, garbage word, CRLF, commented-out key), " +
-			"with/without final newline, x 4 offered keys, through the real verifyAuthorizedKeys: an unlisted key is never accepted, and every key listed in a well-formed file is accepted.  B: the real Server.Callback for 6 user names x 9 passwords x " +
+			"with/without final newline, x 4 offered keys, through the real verifyAuthorizedKeys: an unlisted key is never accepted, and every key listed in a well-formed file is accepted.  B: the real Server.Callback for 11 user names (incl. case variants of the service users) x 9 passwords x " +
 			"4 source addresses x 4 job configurations: granted <=> health user with the health password, or job user whose password is a configured job name and whose address is on that job's allow list.  C: 9 real SSH handshakes against an " +
 			"in-process server and 8 commands in a real health session (no file content, session ends).  non-trivial = cases where a grant is expected",
 		Assumptions: []string{"proof of key possession and signature checks are x/crypto/ssh's (trusted)", "net.LookupIP of literal IP addresses needs no resolver"},
